@@ -107,6 +107,23 @@ fn gen_ring_a(rng: &mut Rng) -> (Vec<Coord<f64>>, Coord<f64>) {
 }
 
 pub fn gen(rng: &mut Rng, _index: u64) -> String {
+    if rng.chance(1, 8) {
+        // the same predicates at single precision (f32 operands are widened exactly by the robust kernel)
+        let (a, p, b) = near_collinear_f32(rng);
+        return match rng.below(4) {
+            0 => format!("C03.orient32 {} {} {}", proto::coord(a), proto::coord(b), proto::coord(p)),
+            1 => format!("C03.seg32 {} {} {}", proto::coord(a), proto::coord(b), proto::coord(p)),
+            2 => {
+                // a triangle ring through a, b and a third f32 point; the query is the near-edge point
+                let c = Coord { x: (a.x as f32 + 7.25f32) as f64, y: (b.y as f32 - 3.5f32) as f64 };
+                format!("C03.ring32 {} {}", proto::coords(&[a, b, c, a]), proto::coord(p))
+            }
+            _ => {
+                let c = Coord { x: (a.x as f32 + 7.25f32) as f64, y: (b.y as f32 - 3.5f32) as f64 };
+                format!("C03.tri32 {} {} {} {}", proto::coord(a), proto::coord(b), proto::coord(c), proto::coord(p))
+            }
+        };
+    }
     match rng.below(10) {
         0..=2 => {
             let (p, q, r) = near_collinear(rng);
@@ -161,8 +178,73 @@ pub fn pos_str(p: geo::coordinate_position::CoordPos) -> &'static str {
     }
 }
 
+/// single-precision inputs (every value is an f32, printed widened): near-collinear triples whose coordinate
+/// differences are not representable in f32 — whole numbers around ±1e7, decimals — the third point a rounded
+/// (in f32) point of the segment, nudged by 0..2 f32 ulps
+fn near_collinear_f32(rng: &mut Rng) -> (Coord<f64>, Coord<f64>, Coord<f64>) {
+    let v = |rng: &mut Rng| -> f32 {
+        match rng.below(3) {
+            0 => (rng.range(-16_000_000, 16_000_000) as f32) + if rng.chance(1, 2) { 0.5 } else { 0.0 },
+            1 => rng.range(-3000, 3000) as f32 / 100.0,
+            _ => ((rng.unit() - 0.5) * 2000.0) as f32,
+        }
+    };
+    let a = (v(rng), v(rng));
+    let b = (v(rng), v(rng));
+    let u = rng.unit() as f32;
+    let t = *rng.pick(&[0.25f32, 0.5, 0.75, 2.0, -1.0, u]);
+    let mut p = (a.0 + t * (b.0 - a.0), a.1 + t * (b.1 - a.1));
+    let nudge32 = |rng: &mut Rng, x: f32| -> f32 {
+        let mut r = x;
+        for _ in 0..rng.range(0, 2) {
+            let bits = r.to_bits();
+            r = if r == 0.0 { f32::from_bits(1) } else if rng.chance(1, 2) { f32::from_bits(bits + 1) } else { f32::from_bits(bits - 1) };
+        }
+        r
+    };
+    p = (nudge32(rng, p.0), nudge32(rng, p.1));
+    let w = |c: (f32, f32)| Coord { x: c.0 as f64, y: c.1 as f64 };
+    (w(a), w(p), w(b))
+}
+
+/// the f64 coordinate as an f32, if it is one (the 32-bit ops are only meaningful then)
+fn c32(c: Coord<f64>) -> Option<Coord<f32>> {
+    let (x, y) = (c.x as f32, c.y as f32);
+    if x as f64 == c.x && y as f64 == c.y && x.is_finite() && y.is_finite() { Some(Coord { x, y }) } else { None }
+}
+
 pub fn eval(op: &str, t: &mut Toks) -> R<String> {
     match op {
+        "C03.orient32" => {
+            let (p, q, r) = (t.coord()?, t.coord()?, t.coord()?);
+            match (c32(p), c32(q), c32(r)) {
+                (Some(p), Some(q), Some(r)) => Ok(ori_str(<f32 as GeoNum>::Ker::orient2d(p, q, r)).to_string()),
+                _ => Ok("notf32".into()),
+            }
+        }
+        "C03.seg32" => {
+            let (a, b, p) = (t.coord()?, t.coord()?, t.coord()?);
+            match (c32(a), c32(b), c32(p)) {
+                (Some(a), Some(b), Some(p)) => { let l = Line::new(a, b); Ok(format!("{} {}", l.intersects(&p), l.contains(&p))) }
+                _ => Ok("notf32".into()),
+            }
+        }
+        "C03.ring32" => {
+            let ring = t.coords()?;
+            let p = t.coord()?;
+            let r32: Option<Vec<Coord<f32>>> = ring.iter().map(|c| c32(*c)).collect();
+            match (r32, c32(p)) {
+                (Some(r), Some(p)) => Ok(pos_str(coord_pos_relative_to_ring(p, &LineString(r))).to_string()),
+                _ => Ok("notf32".into()),
+            }
+        }
+        "C03.tri32" => {
+            let (a, b, c, p) = (t.coord()?, t.coord()?, t.coord()?, t.coord()?);
+            match (c32(a), c32(b), c32(c), c32(p)) {
+                (Some(a), Some(b), Some(c), Some(p)) => { let tri = Triangle(a, b, c); Ok(format!("{} {}", tri.intersects(&p), tri.contains(&p))) }
+                _ => Ok("notf32".into()),
+            }
+        }
         "C03.orient" => {
             let (p, q, r) = (t.coord()?, t.coord()?, t.coord()?);
             Ok(ori_str(<f64 as GeoNum>::Ker::orient2d(p, q, r)).to_string())
